@@ -150,7 +150,7 @@ xrep0_pipe_init(void *arg, nni_pipe *pipe, void *s)
 	// willing to receive replies.  Something to think about for the
 	// future.)
 	if ((rv = nni_msgq_init(&p->sendq, 64)) != 0) {
-		xrep0_pipe_fini(p);
+		// (the core runs our close, stop and fini for a failed init)
 		return (rv);
 	}
 	return (0);
